@@ -269,8 +269,7 @@ func runC07i(c *runCtx) {
 			if m.list == nil {
 				items := display(r)
 				mc := sp.Match
-				mc.forcePos = true
-				m.list = indicesOf(freshFilter(items, plan.Query, mc))
+							m.list = indicesOf(freshFilter(items, plan.Query, mc))
 				if m.list == nil {
 					m.list = []int32{}
 				}
@@ -315,7 +314,6 @@ func runC07i(c *runCtx) {
 	// ---- model of what must have been printed
 	items := display(r)
 	mc := sp.Match
-	mc.forcePos = true
 	results := indicesOf(freshFilter(items, plan.Query, mc))
 	out := func(idx int32) string {
 		if plan.AcceptNth != "" {
